@@ -23,7 +23,8 @@ var c12Forms = []struct{ name, sql string }{
 	{"first", "FIRST(arr)"}, {"last", "LAST(arr)"}, {"elementat", "ELEMENTAT(ARRAY(n1, s1), 1)"}, {"unwind", "UNWIND(ARRAY(arr, ARRAY(n1)))"}, {"changetype", "CHANGETYPE(n1, 'string')"}, {"changetype.int", "CHANGETYPE('12', 'integer')"},
 	{"upper", "TO_UPPER(s1)"}, {"hash", "HASH(s1, 'sha1')"}, {"encode", "ENCODE(n1, 'hex')"}, {"decode", "DECODE(ENCODE(s1, 'base64'), 'base64')"}, {"daterange", "DATERANGE('2020-01-01', s1)"}, {"constant", "CONSTANT('c1')"},
 	{"getvar", "GETVAR('k')"}, {"getvar.unset", "GETVAR('never')"}, {"subquery", "(SELECT e, f FROM arr WHERE e > 1)"}, {"subquery.root", "(SELECT un1 FROM `<-u1`)"}, {"subquery.agg", "(SELECT COUNT(*) AS n, SUM(e) AS s FROM arr)"},
-	{"exists", "EXISTS (SELECT e FROM arr WHERE e > 1)"}, {"tuple", "('a', 'b', n1, 2)"}, {"tuple.nested", "ARRAY(('x', s1), (n1, (n2 + 1)))"}, {"subquery.dual-star", "(SELECT * FROM dual)"}, {"fn.user", "VFAIL(n1)"}, {"fn.user.arith", "(VFAIL(n1) + 1)"}, {"fn.once", "ONCE.VBG(7)"}, {"fn.scoped", "SCOPED.VBG(s1)"}, {"defaultkey", "DEFAULTKEY(obj)"},
+	{"exists", "EXISTS (SELECT e FROM arr WHERE e > 1)"}, {"tuple", "('a', 'b', n1, 2)"}, {"tuple.nested", "ARRAY(('x', s1), (n1, (n2 + 1)))"}, {"subquery.dual-star", "(SELECT * FROM dual)"}, {"marker.fuse", "FUSE(obj)"}, {"marker.setvar", "SETVAR('k', n1)"}, {"marker.spin", "SPIN.VBG(n1)"}, {"marker.spinasync", "SPINASYNC.VBG(s1)"}, {"marker.fuse.array", "ARRAY(FUSE(obj), SETVAR('k', 1), 2)"},
+	{"fn.user", "VFAIL(n1)"}, {"fn.user.arith", "(VFAIL(n1) + 1)"}, {"fn.once", "ONCE.VBG(7)"}, {"fn.scoped", "SCOPED.VBG(s1)"}, {"defaultkey", "DEFAULTKEY(obj)"},
 }
 
 var c12Positions = []struct {
@@ -51,7 +52,7 @@ var c12Positions = []struct {
 }
 
 func init() {
-	floor := []string{"item.async", "item.async-union", "item.async-cte", "item.async-multidim", "item.once-multidim", "item.async-derived", "item.cte-dual-star", "item.fuse-dual-star", "item.fuse", "item.fuse-alias", "item.setvar", "item.async-derived-object", "item.async-join-operand", "item.cte-by-name", "item.fuse-async", "item.marker", "reexec.after-fault", "group.mixed-keys", "join.limit", "rich", "parjoin"}
+	floor := []string{"item.async", "item.async-union", "item.async-cte", "item.async-multidim", "item.once-multidim", "item.async-derived", "item.cte-dual-star", "item.fuse-dual-star", "item.fuse", "item.fuse-alias", "item.setvar", "item.async-derived-object", "item.async-join-operand", "item.cte-by-name", "item.fuse-async", "item.marker", "item.await-marker", "reexec.after-fault", "group.mixed-keys", "join.limit", "rich", "parjoin"}
 	for _, f := range c12Forms {
 		floor = append(floor, "form."+f.name)
 	}
@@ -226,12 +227,15 @@ func c12Matrix(c *fw.Case) {
 		d = newRichDoc(c)
 	}
 	nf, np := len(c12Forms), len(c12Positions)
-	cell := c.Idx % (nf*np + 46)
+	cell := c.Idx % (nf*np + 48)
 	if cell >= nf*np {
 		// special select items
 		var sql string
 		var feat string
-		switch (cell - nf*np) % 23 {
+		switch (cell - nf*np) % 24 {
+		case 23:
+			// AWAIT directly as a select item, over calls that yield a marker instead of a value
+			sql, feat = "SELECT rid, AWAIT(FUSE(obj)) AS y, AWAIT(SPINASYNC.VBG(s1)) AS z, AWAIT(SETVAR('k', n1)) AS w FROM t1", "item.await-marker"
 		case 20:
 			sql, feat = "SELECT rid, (SELECT `<-` FROM dual) AS x, (SELECT `<-` AS up FROM dual) AS y FROM t1", "item.marker"
 		case 21:
